@@ -3,8 +3,11 @@ EXTENDS CacheView, Json
 \* object 1: a /Pages dictionary (loads as PagesNode "P" and as Dictionary "D");
 \* object 2: a plain dictionary (D ok, P err); object 3: an integer (both err); stream 4: an image [ASCIIHex, Flate]
 \* object 8: a /Page whose required /Parent refers to a free object (P fails because of a dangling reference it follows, D ok)
+\* object 9: an array [2 0 R 7 0 R] whose second element is a free object: as Vec<MaybeRef<Dictionary>> ("VM") the load follows the
+\* dangling element and fails with the bare missing-object error, as Vec<Ref<Dictionary>> ("VR") nothing is followed and it loads
 MC_Loads == (1 :> ("P" :> "ok" @@ "D" :> "ok")) @@ (2 :> ("P" :> "err" @@ "D" :> "ok")) @@ (3 :> ("P" :> "err" @@ "D" :> "err"))
-            @@ (8 :> ("P" :> "err" @@ "D" :> "ok"))
+            @@ (8 :> ("P" :> "err" @@ "D" :> "ok")) @@ (9 :> ("VM" :> "err" @@ "VR" :> "ok"))
+MC_TypesOf == (1 :> {"P", "D"}) @@ (2 :> {"P", "D"}) @@ (3 :> {"P", "D"}) @@ (8 :> {"P", "D"}) @@ (9 :> {"VM", "VR"})
 AsBuilt == {"stream_cache_key_ignores_filters"}
 Ideal(k) == Uncached(path[k].call, path[k].arg, path[k].typ)
 CaseJson == [ocOn |-> ocOn, scOn |-> scOn, dev |-> Dev,
